@@ -1,11 +1,12 @@
 ----------------------- MODULE Gen_WasmRecoveryStore -----------------------
 (* Case generation for the replay through the real store: every sequence of writes (all prefix classes) up to  *)
-(* DFULL followed by EVERY operation, and every sequence of writes up to DMUT followed by every core operation. *)
+(* DFULL followed by EVERY operation, and every sequence of writes (prefix classes PREP) up to DMUT followed by *)
+(* every core operation.                                                                                         *)
 (* A case is [pre |-> <<writes>>, op |-> operation]; the harness runs pre, then records op with the real        *)
 (* underlying stores before and after.  Serialised once (full enumeration).                                     *)
 EXTENDS WasmRecoveryStore, TLC, Json, SequencesExt
 
-CONSTANTS DFULL, DMUT, WITHHAS, OutFile
+CONSTANTS DFULL, DMUT, PREP, WITHHAS, OutFile     \* PREP: prefix classes of the writes in the deep (DMUT) prefixes
 
 Seqs(X, d) == UNION { [1..n -> X] : n \in 0..d }
 
@@ -20,7 +21,7 @@ CoreIters == [op : {"Iter", "RIter"}, s : {B("S", 0)}, e : {B("S", EndPos)}]
 CoreOps == MutOps \cup GetOps \cup CoreIters \cup (IF WITHHAS THEN HasOps ELSE {})
 
 Cases == { [pre |-> m, op |-> o] : m \in Seqs(MutOps, DFULL), o \in AllOps(WITHHAS) }
-    \cup { [pre |-> m, op |-> o] : m \in Seqs(MutOps, DMUT), o \in CoreOps }
+    \cup { [pre |-> m, op |-> o] : m \in Seqs({ w \in MutOps : w.p \in PREP }, DMUT), o \in CoreOps }
 
 ASSUME PrintT(<<"CASES", Cardinality(Cases)>>)
 ASSUME ndJsonSerialize(OutFile, SetToSeq(Cases))
